@@ -23,6 +23,7 @@
 #include "tbb/arena_slot.h"
 #include "verif_hb.h"
 #include <cstdio>
+#include <memory>
 #include <set>
 #include <thread>
 #include <fstream>
@@ -290,6 +291,38 @@ static tbb::task_arena* g_shared_arena = nullptr;
 static tbb::task_group* g_shared_tg = nullptr;
 static std::atomic<int> g_stage{0};
 static int g_res_lo = 0, g_res_hi = 0;
+// "reentrant": user code that runs at a SUBMISSION point uses the scheduler itself: the functor's copy constructor (called by task_group::run while
+// the task is being built) creates and waits for many other task_groups on the same thread (more than a thousand live wait contexts).  The unit
+// submitted by the outer run() is still covered by the outer wait.
+static bool g_armed = false;
+static std::vector<std::unique_ptr<tbb::task_group>> g_keep;
+static void touch_many_groups(int n) {
+    for (int i = 0; i < n; ++i) {
+        g_keep.emplace_back(new tbb::task_group);
+        g_keep.back()->run([] {});
+        g_keep.back()->wait();
+    }
+}
+struct ReWork {
+    int id;
+    explicit ReWork(int i) : id(i) {}
+    ReWork(const ReWork& o) : id(o.id) { if (g_armed) { g_armed = false; touch_many_groups(1200); } }
+    void operator()() const { M->begin(id); M->end(id); }
+};
+static void prog_reentrant() {
+    for (int round = 0; round < 2; ++round) {
+        tbb::task_group tg;
+        int id = M->fresh();
+        ReWork w(id);
+        g_armed = true;
+        if (round == 0) tg.run(w);
+        else { tbb::task_handle h = tg.defer(w); tg.run(std::move(h)); }
+        tg.wait();
+        M->covered(id, id + 1, "task_group::wait after a submission whose functor copy used other task_groups");
+        g_keep.clear();
+    }
+}
+
 static void prog_reserved_main() {
     tbb::task_arena a(g_P > 2 ? g_P : 2, 2);
     a.initialize();
@@ -333,6 +366,7 @@ static bool run_once(verif::Schedule& sch, int run_idx, bool print_ok) {
         else if (g_prog == "cancel") prog_cancel();
         else if (g_prog == "oversub") external_body(0);
         else if (g_prog == "reserved") prog_reserved_main();
+        else if (g_prog == "reentrant") prog_reentrant();
         while (g_ext_done.load() < nextra) _mm_pause();
         tbb::finalize(h);
     });
